@@ -313,5 +313,11 @@ def r6_no_truthiness_rewrite(chk: Check) -> None:
         chk.undecided("C06.R6", "<discovery>", f"walks={n}", "no walk over the case's containers found in the transports")
 
 
+def rfwd_forwarding(chk: Check) -> None:
+    from . import shared
+
+    shared.forwarding_rule(chk, "C06.FWD", ('schemas.py:APIOperation.Case', 'specs/openapi/schemas.py:SwaggerV20.make_case', 'specs/graphql/schemas.py:GraphQLSchema.make_case', 'generation/case.py:Case.call', 'generation/case.py:Case.as_transport_kwargs'), "case components on their way to the transport", 4)
+
+
 def rules(tier: str) -> list:  # type: ignore[type-arg]
-    return [r1_registries, r2_content_type, r3_quote_all, r3b_template_ownership, r4_header_writers, r5_cookie_pair, r6_no_truthiness_rewrite]
+    return [r1_registries, r2_content_type, r3_quote_all, r3b_template_ownership, r4_header_writers, r5_cookie_pair, r6_no_truthiness_rewrite, rfwd_forwarding]
